@@ -110,6 +110,17 @@ func runCheck(prop, tier string, overlay map[string][]byte, mutantMode bool) (*C
 	known := loadKnown()
 	templates := loadTemplates()
 
+	// dispatch classes become ordinary clauses (checked under C17 / C03)
+	for _, c := range db.Contracts {
+		if c.Access != "" {
+			if err := expandAccess(c); err != nil {
+				return nil, err
+			}
+			if strings.Fields(c.Access)[0] != "public" && !contains(c.Props, "C17") {
+				c.Props = append(c.Props, "C17")
+			}
+		}
+	}
 	// functions under contract for this property
 	var keys []string
 	for k, c := range db.Contracts {
@@ -205,6 +216,9 @@ func runCheck(prop, tier string, overlay map[string][]byte, mutantMode bool) (*C
 		}
 		solveList = append(solveList, o)
 	}
+	if os.Getenv("GOVC_DEBUG") != "" {
+		fmt.Fprintf(os.Stderr, "[govc] %d obligation instances to solve\n", len(solveList))
+	}
 	sv.run(solveList)
 	res.SolverMs, res.Queries, res.BySolver, res.Samples = sv.totalMs, sv.queries, sv.bySolver, sv.samples
 
@@ -289,7 +303,11 @@ func runCheck(prop, tier string, overlay map[string][]byte, mutantMode bool) (*C
 		a.Ms += o.Ms
 		a.Solvers[o.Solver]++
 		if o.Result != "unsat" {
-			a.Failed = append(a.Failed, o)
+			if o.Result == "not-run" {
+				a.Failed = append(a.Failed, o)
+			} else {
+				a.Failed = append([]*Obligation{o}, a.Failed...)
+			}
 		}
 	}
 	for _, n := range order {
@@ -340,8 +358,8 @@ func runCheck(prop, tier string, overlay map[string][]byte, mutantMode bool) (*C
 }
 
 func findByKey(w *World, key string) *ssa.Function {
-	for path := range w.SSA {
-		short := shortPkg(path)
+	for path, sp := range w.SSA {
+		short := sp.Pkg.Name()
 		if strings.HasPrefix(key, short+".") {
 			if fn := w.FindFunc(path, key[len(short)+1:]); fn != nil {
 				return fn
@@ -666,5 +684,9 @@ func cmdCheck(args []string) int {
 }
 
 func (e *Engine) runSweep(name, prop string, res *CheckResult) ([]*Obligation, error) {
+	switch name {
+	case "surface":
+		return e.surfaceSweep(prop, res)
+	}
 	return nil, fmt.Errorf("unknown sweep %q", name)
 }
